@@ -452,7 +452,21 @@ def filter_citations(citations: List[CitationBase]) -> List[CitationBase]:
 
     # a later citation's full span may start before an earlier citation
     # (backward party-name scan), so order the result by citation span
-    return sorted(filtered_citations, key=lambda citation: citation.span())
+    filtered_citations.sort(key=lambda citation: citation.span())
+
+    # the pass above only compares neighbours in full-span order; a reference
+    # may still overlap a citation that was not its neighbour there
+    ordered_citations: List[CitationBase] = []
+    for citation in filtered_citations:
+        if ordered_citations and overlapping_citations(
+            citation.span(), ordered_citations[-1].span()
+        ):
+            if isinstance(citation, ReferenceCitation):
+                continue
+            if isinstance(ordered_citations[-1], ReferenceCitation):
+                ordered_citations.pop(-1)
+        ordered_citations.append(citation)
+    return ordered_citations
 
 
 joke_cite: List[CitationBase] = [
